@@ -113,3 +113,82 @@ Proof.
   intros H Hg. destruct (assembled_sent_is_handle4_sent _ _ _ _ _ _ _ _ H) as (lg & E).
   exact (dest4_relay _ _ _ _ _ _ _ E Hg).
 Qed.
+
+(* ---- the message type: no real instance touches option 53, so the assembled server answers a
+   DISCOVER with an OFFER and a REQUEST with an ACK, exactly (a NAK can only come from a handler
+   outside the built-in set) ---- *)
+Definition type_preserving (h : handler4) : Prop :=
+  forall req r, match h req (Some r) with (Some r', _) => msg_type r' = msg_type r | (None, stop) => stop = true end.
+
+Lemma plug4_type_preserving p : type_preserving (lift4 p).
+Proof.
+  intros req r. unfold lift4.
+  assert (U : forall c v, c <> 53 -> msg_type (upd_opt r c v) = msg_type r) by (intros c v H; apply msg_type_upd; exact H).
+  destruct p; cbn [plug4_handler].
+  - destruct (is_requested 6 req); [apply U; discriminate|reflexivity].
+  - destruct (is_requested 26 req); [apply U; discriminate|reflexivity].
+  - apply U; discriminate.
+  - apply U; discriminate.
+  - apply U; discriminate.
+  - destruct routes; [reflexivity|]. destruct (enc_routes _); cbn [bind]; [apply U; discriminate|reflexivity|reflexivity].
+  - destruct (negb (m_op req =? 1)); [reflexivity|]. destruct (opt_has 51 (m_opts r)); [reflexivity|apply U; discriminate].
+  - destruct (is_listed 108 req); [apply U; discriminate|reflexivity].
+  - destruct (negb (msg_type r =? 2) || negb (is_unspecified (m_yiaddr r))); [reflexivity|].
+    destruct (opt_get 116 (m_opts req)) as [[|? [|? ?]]|]; try reflexivity. apply U; discriminate.
+  - destruct opt67 as [v67|]; [|reflexivity].
+    assert (R1 : forall r1, msg_type r1 = msg_type r ->
+                 msg_type (if is_requested 67 req then upd_opt r1 67 v67 else r1) = msg_type r).
+    { intros r1 A. destruct (is_requested 67 req); [|exact A]. rewrite msg_type_upd by discriminate. exact A. }
+    destruct opt66 as [v66|]; apply R1; [|reflexivity]. destruct (is_requested 66 req); [apply U; discriminate|reflexivity].
+  - reflexivity.
+  - destruct (negb (m_op req =? 1)); [reflexivity|].
+    repeat match goal with |- context [if ?c then _ else _] => destruct c end; try reflexivity.
+    rewrite msg_type_upd by discriminate. apply (hdr_eq_si r).
+Qed.
+
+Lemma inst_type_preserving now i : type_preserving (as_handler4 now i).
+Proof.
+  intros req r. unfold as_handler4. destruct i as [p|st|t]; cbn [inst4_call snd].
+  - pose proof (plug4_type_preserving p req r) as H. unfold lift4 in H. exact H.
+  - destruct (range_handler st now req r) as [st' o] eqn:E. cbn [snd].
+    destruct o as [[[m|] stop]|e|]; try reflexivity.
+    + destruct (range_reply_form _ _ _ _ _ _ _ E) as (ip & v & ->).
+      rewrite msg_type_upd by discriminate. apply (hdr_eq_yi r).
+    + unfold range_handler in E.
+      destruct (recs_get (mac_string (m_chaddr req)) (rs_recs st)) as [rc|].
+      * destruct (rc_exp rc * NS <? now + rs_lease st)%Z; discriminate.
+      * destruct (allocate4 (rs_alloc st) []) as [a' [x|er|]]; try discriminate. injection E as _ <-. reflexivity.
+  - unfold file_handler4. destruct (ft_get (mac_string (m_chaddr req)) t) as [ip|]; [apply (hdr_eq_yi r)|reflexivity].
+Qed.
+
+Lemma chain_keeps_type hs : Forall type_preserving hs -> forall k req r0 m log,
+  run_chain4 hs k req (Some r0) = (Some m, log) -> msg_type m = msg_type r0.
+Proof.
+  induction hs as [|h hs IH]; intros F k req r0 m log H; cbn [run_chain] in H.
+  - injection H as <- _. reflexivity.
+  - pose proof (Forall_inv F req r0) as Hh. destruct (h req (Some r0)) as [o stop].
+    destruct stop.
+    + injection H as -> _. exact Hh.
+    + destruct o as [r1|]; [|discriminate Hh].
+      destruct (run_chain hs (S k) req (Some r1)) as [r' lg] eqn:E. injection H as -> _.
+      rewrite (IH (Forall_inv_tail F) _ _ _ _ _ E). exact Hh.
+Qed.
+
+(* C11, the type clause at full strength for the real chains: an OFFER for a DISCOVER, an ACK for
+   a REQUEST - no built-in plugin turns a reply into anything else *)
+Theorem assembled_reply4_type is lif now oob req is' d m :
+  srv4_step is lif now oob (Some req) = (is', O4Sent d m) ->
+  (msg_type req = 1 /\ msg_type m = 2) \/ (msg_type req = 3 /\ msg_type m = 5).
+Proof.
+  intros H. destruct (assembled_sent_is_handle4_sent _ _ _ _ _ _ _ _ H) as (lg & E).
+  destruct (reply4_only_to_requests _ _ _ _ _ _ _ E) as (rq & r0 & Hp & Hop & Ht & Hs & Hc).
+  injection Hp as <-.
+  assert (F : Forall type_preserving (map (as_handler4 now) is)).
+  { apply Forall_forall. intros h Hh. apply in_map_iff in Hh. destruct Hh as (i & <- & _). apply inst_type_preserving. }
+  pose proof (chain_keeps_type _ F _ _ _ _ _ Hc) as Hm.
+  unfold Server4Proofs.start4 in Hs.
+  destruct (msg_type req =? 1) eqn:E1.
+  - injection Hs as <-. left. split; [apply N.eqb_eq; exact E1|]. rewrite Hm. apply msg_type_set.
+  - destruct (msg_type req =? 3) eqn:E3; [|discriminate]. injection Hs as <-. right.
+    split; [apply N.eqb_eq; exact E3|]. rewrite Hm. apply msg_type_set.
+Qed.
